@@ -105,6 +105,7 @@ Fixpoint p_op (fuel : nat) (ts : toks) : option (op * toks) :=
     | t :: r =>
       if is t "T" then match r with x :: r1 => Some (OText x, r1) | _ => None end
       else if is t "W" then match r with x :: r1 => Some (ONonce x, r1) | _ => None end
+      else if is t "M" then match p_until k p_class r with Some (l, r1) => Some (OMiddleware l, r1) | None => None end
       else if is t "R" then match p_script r with Some (s, r1) => Some (ORender s, r1) | None => None end
       else if is t "I" then match p_until k p_script r with Some (l, r1) => Some (OScriptItems l, r1) | None => None end
       else if is t "C" then match p_until k (p_form k) r with Some (l, r1) => Some (OCSSItems l, r1) | None => None end
@@ -152,6 +153,7 @@ Definition p_iev (ts : toks) : option (iev * toks) :=
       if is t "D" then match r with k :: n :: r1 => Some (IDef (p_id k n), r1) | _ => None end
       else if is t "I" then match r with c :: r1 => Some (ICallInline c, r1) | _ => None end
       else if is t "A" then match r with c :: r1 => Some (ICallAttr c, r1) | _ => None end
+      else if is t "G" then match r with k :: n :: r1 => Some (IReg (p_id k n), r1) | _ => None end
       else if is t "N" then match r with c :: r1 => match take_strs (N.to_nat (num c)) r1 with Some (l, r2) => Some (INames l, r2) | None => None end | _ => None end
       else None
   | [] => None
@@ -173,7 +175,11 @@ Definition enc_id (i : id) : bytes :=
   | Handle h => bs "h " ++ dec h
   end.
 Definition enc_ev (e : ev) : bytes :=
-  match e with Def i => bs "D " ++ enc_id i ++ [x0a] | Use i => bs "U " ++ enc_id i ++ [x0a] end.
+  match e with
+  | Def i => bs "D " ++ enc_id i ++ [x0a]
+  | Use i => bs "U " ++ enc_id i ++ [x0a]
+  | Reg i => bs "G " ++ enc_id i ++ [x0a]
+  end.
 Definition enc_want (w : want) : bytes :=
   match w with
   | WCallInline s => bs "I " ++ sinline s ++ [x0a]
@@ -184,10 +190,15 @@ Definition enc_want (w : want) : bytes :=
 Definition init_st (cfgs : list cfg) : nat -> reg :=
   fun c => init_reg (nth c cfgs (mkCfg [] None)).
 
-(* reply for context c: bytes, stylesheet, log, uses served *)
-Definition ctx_reply (cfgs : list cfg) (out : list (nat * chunk)) (c : nat) : list bytes :=
+(* the stylesheet endpoints of the further middlewares context c passes through, one per line *)
+Definition later_sheets (ops : list op) : bytes :=
+  flat_map (fun o => match o with OMiddleware l => sheet_of l ++ [x0a] | _ => [] end) ops.
+
+(* reply for context c: bytes, stylesheet, log, uses served, stylesheets of the later middlewares *)
+Definition ctx_reply (cfgs : list cfg) (h : list (nat * op)) (out : list (nat * chunk)) (c : nat) : list bytes :=
   let cs := proj c out in
-  [render cs; stylesheet (nth c cfgs (mkCfg [] None)); flat_map enc_ev (log cs); flat_map enc_want (wants cs)].
+  [render cs; stylesheet (nth c cfgs (mkCfg [] None)); flat_map enc_ev (log cs); flat_map enc_want (wants cs);
+   later_sheets (proj c h)].
 
 Definition parse (ts : toks) : option (list cfg * list (nat * op) * toks) :=
   match ts with
@@ -205,11 +216,11 @@ Definition parse (ts : toks) : option (list cfg * list (nat * op) * toks) :=
 
 Definition dispatch (f : bytes) (a : list bytes) : list bytes :=
   if is f "run" then
-    (* tokens: nctx cfg* (ctx op)* "."   reply: per context [bytes; stylesheet; log; wants] *)
+    (* tokens: nctx cfg* (ctx op)* "."   reply: per context [bytes; stylesheet; log; wants; later sheets] *)
     match parse a with
     | Some (cfgs, h, _) =>
         let '(_, out) := run_multi (init_st cfgs) h in
-        bs "ok" :: flat_map (ctx_reply cfgs out) (seq 0 (length cfgs))
+        bs "ok" :: flat_map (ctx_reply cfgs h out) (seq 0 (length cfgs))
     | None => [bs "!parse"]
     end
   else if is f "check" then
